@@ -131,7 +131,7 @@ def build(variant, repo=None, quiet=True):
         (d for d in os.listdir(BUILD_ROOT) if d.startswith(variant + "-") and ".tmp" not in d),
         key=lambda d: os.path.getmtime(os.path.join(BUILD_ROOT, d)),
     )
-    for d in olds[:-4]:
+    for d in olds[:-60]:
         shutil.rmtree(os.path.join(BUILD_ROOT, d), ignore_errors=True)
     return out
 
